@@ -969,16 +969,15 @@ theorem rewrite_chain_preserves_compiled_state_dm (ne np : Nat) (c c' : Circuit)
 /-- **the density-matrix semantics is tied to the compile loop**: on gate-only circuits, running `Commute.appD` along the
     compile sequence from `|0…0⟩⟨0…0|` gives the density matrix `ρ(t)` of the very tableau `t` the stabilizer backend
     (`stabRun`) returns for that sequence — for every topological order, setting and script (`Commute.appD` refines the
-    stabilizer compile step `Commute.appT` gate by gate: `rho_tab_gate` of C07).  Hypothesis `hnd`: the registers of one
-    operation are pairwise different. -/
+    stabilizer compile step `Commute.appT` gate by gate: `rho_tab_gate` of C07; weight exactly 1).  The general case, with
+    measurements, is `density_matrix_run_is_weighted_rho_of_compiled_tableau` below. -/
 theorem density_matrix_semantics_is_rho_of_compiled_tableau (c : Circuit) (hgood : c.Good) (har : Commute.ArityOk c)
-    (hg : Commute.GateOnly c) (seq : List Nat) (d : Det) (script : List Bool) (sc : Commute.Script)
-    (hnd : ∀ a, a ∈ c.sops seq → a.regs.Nodup) :
+    (hg : Commute.GateOnly c) (seq : List Nat) (d : Det) (script : List Bool) (sc : Commute.Script) :
     ∃ s, stabRun c.ne c.np d script ((c.sops seq).map Commute.toCOp) = some s ∧
       runSeq (Commute.appD c.ne c.np) (c.sops seq) (some (Hilbert.tabRho (c.ne + c.np) (Tab.ket0 (c.ne + c.np)), sc))
         = some (Hilbert.tabRho (c.ne + c.np) s.t, sc) := by
   have hok := Commute.sops_gate_ok c hgood har hg seq
-  obtain ⟨s', h1, _, h2⟩ := Commute.runSeq_appD_refines c.ne c.np (c.sops seq) (fun a ha => ⟨(hok a ha).1, hnd a ha⟩)
+  obtain ⟨s', h1, _, h2⟩ := Commute.runSeq_appD_refines c.ne c.np (c.sops seq) (fun a ha => ⟨(hok a ha).1, (Commute.sops_ok c hgood har seq a ha).2⟩)
     { t := Tab.ket0 (c.ne + c.np), writes := [], script := script, rand := [], outs := [] } rfl sc
   exact ⟨s', by rw [Commute.stabRun_eq_runSeq c hgood har hg seq d script c.ne c.np rfl rfl]; exact h1, h2⟩
 
@@ -994,14 +993,11 @@ theorem density_matrix_measurement_is_born_weighted_tableau_measurement (t : Tab
         Hilbert.tabRho t.n (t.zMeasure q o).1) :=
   Commute.appPD_meas_tab t q o hq hv hr
 
-/-- the hypotheses of `density_matrix_semantics_is_rho_of_compiled_tableau` are met by `exG` (gate-only, good, arities right; the
-    registers of each operation of its compile sequence are pairwise different) -/
-example : ∀ a, a ∈ exG.sops [1, 2, 3, 4] → a.regs.Nodup := by decide
-
+/-- the hypotheses of `density_matrix_semantics_is_rho_of_compiled_tableau` are met by `exG` (gate-only, good, arities right) -/
 example (sc : Commute.Script) : ∃ s, stabRun exG.ne exG.np .zero [] ((exG.sops [1, 2, 3, 4]).map Commute.toCOp) = some s ∧
     runSeq (Commute.appD exG.ne exG.np) (exG.sops [1, 2, 3, 4])
       (some (Hilbert.tabRho (exG.ne + exG.np) (Tab.ket0 (exG.ne + exG.np)), sc)) = some (Hilbert.tabRho (exG.ne + exG.np) s.t, sc) :=
-  density_matrix_semantics_is_rho_of_compiled_tableau exG exG_good exG_arity exG_gates [1, 2, 3, 4] .zero [] sc (by decide)
+  density_matrix_semantics_is_rho_of_compiled_tableau exG exG_good exG_arity exG_gates [1, 2, 3, 4] .zero [] sc
 
 /-- **every operation of the compile sequence, in the density-matrix semantics, refines the tableau API of C07 with Born
     weights**: on `c · ρ(t)` (valid tableau, real stabilizer rows) it returns `(c · w) · ρ(t')`, where `t'` is the tableau after
